@@ -144,7 +144,20 @@ class World:
             # failure frame reach the host in ONE read
             head = bytes(sw.n2h[0]) if (same_read and sw.n2h) else b""
             sw.n2h.clear()
-            sw.loop.call_soon(sw.proto.data_received, head + ref_ash.wire(frame))
+            if not with_timer:
+                # run exactly the loop iteration that processes the read, then look at the port: once the failure frame has been
+                # processed nothing more may be written (a command that was queued behind the answered one must raise, not go out)
+                sw.loop.settle()
+                sw.loop.call_soon(sw.proto.data_received, head + ref_ash.wire(frame))
+                sw.loop.run_batch()
+                n_after_read = len(sw.tr.writes)
+                sw.loop.settle()
+                late = [w for _, w in sw.tr.writes[n_after_read:]]
+                if late:
+                    self.viol.append(f"failure {kind}: {len(late)} write(s) to the port after the read that carried the failure had been processed: "
+                                     f"{[x.hex() for x in late[:2]]}")
+            else:
+                sw.loop.call_soon(sw.proto.data_received, head + ref_ash.wire(frame))
         elif kind in ("silent", "silent-impatient"):
             self._mute_ash = True
             sw.ncp.silent = True
@@ -281,6 +294,8 @@ class World:
 
     def _final(self):
         sw = self.sw
+        for e in sw.loop.escaped_callback_exceptions():
+            self.viol.append(f"an exception escaped from a protocol / loop callback: {e}")
         kind, t_fail = self.fail if self.fail else (None, None)
         t_notice = self.notice()
         n_requests = sum(1 for _, name, _ in sw.app_events if name == "_reset_controller_application")
